@@ -378,6 +378,37 @@ theorem C18_returns_none_value_unchanged (c : Case) (o : Oracle) (v : V) (x : Na
     · rfl
     · split <;> rfl
 
+/-! ### histories -/
+
+/-- **C18_history_stateless**: in a history of calls — of one validator object, or of validators built from
+    the same expression — every call is judged on its own: its outcome is the declarative predicate on the
+    value of that call with the primitives as they are at that time, whatever was validated before.  (The
+    same value id twice gives the same outcome; a world change between two calls — an ABC registration, an
+    attribute deleted — is a different id with its own oracle rows, and only those rows count.) -/
+theorem C18_history_stateless (c : Case) (hb : buildErr c.buildOracle c.tree = none) :
+    (model c).more.map (·.outcome) =
+      c.more.map (fun x => if sat c.oracle c.tree x then none else some (excOf c.oracle c.tree x)) ∧
+    (model c).outcome = (if sat c.oracle c.tree 0 then none else some (excOf c.oracle c.tree 0)) := by
+  have hout : ∀ x, (eval c.oracle (norm c.tree) x).1 =
+      (if sat c.oracle c.tree x then none else some (excOf c.oracle c.tree x)) := by
+    intro x; rw [norm_sound, eval_out]; rfl
+  unfold model
+  simp only [hb]
+  split <;> simp [stepOf, hout, List.map_map, Function.comp_def]
+
+/-- histories compose: the calls of a concatenated history are those of its parts -/
+theorem C18_history_append (c : Case) (xs ys : List Nat) (hb : buildErr c.buildOracle c.tree = none) :
+    (model { c with more := xs ++ ys }).more =
+      (model { c with more := xs }).more ++ (model { c with more := ys }).more := by
+  have hb' : ∀ zs, buildErr (Case.buildOracle { c with more := zs }) c.tree = none := fun _ => hb
+  have hs : ∀ zs x, stepOf { c with more := zs } x = stepOf c x := fun _ _ => rfl
+  have hm : ∀ zs, (model { c with more := zs }).more = zs.map (stepOf c) := by
+    intro zs
+    unfold model
+    simp only [hb' zs]
+    split <;> simp [hs]
+  simp [hm]
+
 /-! ### equality and hash -/
 
 /-- **C18_equal_params_equal**: two source expressions that are the same constructor calls with pairwise
@@ -400,7 +431,18 @@ theorem C18_equal_params_equal (eo : EqOracle) (v w : V) (hv : source v = true) 
 theorem C18_purge_irrelevant (c : Case) (b : Bool) (o : Obs) :
     model { c with purge := b } = model c ∧ spec { c with purge := b } o = spec c o ∧
     known { c with purge := b } = known c :=
-  ⟨rfl, rfl, rfl⟩
+  have hs : ∀ xs ss, stepsOk { c with purge := b } xs ss = stepsOk c xs ss := by
+    intro xs
+    induction xs with
+    | nil => intro ss; cases ss <;> rfl
+    | cons x xs ih =>
+      intro ss
+      cases ss with
+      | nil => rfl
+      | cons s ss =>
+        simp only [stepsOk, ih]
+        rfl
+  ⟨rfl, by unfold spec; rw [hs]; rfl, rfl⟩
 
 /-! ### constructor arguments -/
 
@@ -421,7 +463,7 @@ theorem C18_model_meets_spec (c : Case) (hwf : wf c = true) (hk : known c = []) 
   model_meets_spec c hwf hk
 
 def k9Witness : Case :=
-  { tree := .in_ 0, tree2 := .in_ 1, purge := false,
+  { tree := .in_ 0, tree2 := .in_ 1, purge := false, more := [],
     vals := [{ id := 0, fp := "int:1", isNone := false, callable := false, len := .exc .typeError, iter := none }],
     prim := [⟨[1, 0, 0], .f⟩, ⟨[13, 1, 0], .exc .typeError⟩, ⟨[13, 1, 1], .exc .typeError⟩,
              ⟨[10, 1, 0, 1], .t⟩, ⟨[14, 1, 0, 1], .f⟩, ⟨[13, 2, 0], .t⟩, ⟨[13, 2, 1], .t⟩,
@@ -432,7 +474,7 @@ theorem C18_K9_witness : ∃ c, wf c = true ∧ "K9" ∈ known c ∧ spec c (mod
   ⟨k9Witness, by decide⟩
 
 def k18aWitness : Case :=
-  { tree := .matchesRe 0 0 .dflt, tree2 := .matchesRe 0 0 .dflt, purge := true,
+  { tree := .matchesRe 0 0 .dflt, tree2 := .matchesRe 0 0 .dflt, purge := true, more := [],
     vals := [{ id := 0, fp := "str:aa", isNone := false, callable := false, len := .ok 2, iter := none }],
     prim := [⟨[3, 0, 0, 0, 0], .t⟩, ⟨[3, 0, 0, 1, 0], .t⟩, ⟨[3, 0, 0, 2, 0], .t⟩, ⟨[6, 0], .f⟩, ⟨[7, 0, 0], .t⟩,
              ⟨[13, 5, 0], .t⟩, ⟨[10, 5, 0, 0], .t⟩, ⟨[14, 5, 0, 0], .t⟩, ⟨[11, 0, 0, 0, 0], .t⟩,
